@@ -406,4 +406,12 @@ theorem C15_genloadv1_well_scoped_inputs (printable : Char → Bool) (g : VIn) (
     wellScoped printable g outer = true :=
   wellScoped_inputs printable g outer hk h1 h2 h3
 
+open DW.GenLoadV1 in
+/-- what the driver evaluates on the inputs of every generated function of every run (`premisesB`: the premises of
+`C15_genloadv1_well_scoped_inputs` as a Boolean test; a name shaped `__…__v` counts as a possible field variable): when it passes,
+the function is well scoped.  The correspondence stream reports every generated function on which it does not pass. -/
+theorem C15_genloadv1_premises_sound (printable : Char → Bool) (g : VIn) (outer : List S) (h : premisesB g outer = true) :
+    wellScoped printable g outer = true :=
+  premisesB_sound printable g outer h
+
 end DW.Props.C15
